@@ -43,6 +43,62 @@ fn run_bin(bin: &str, args: &[&str], stdin: &[u8], merged: bool) -> Proc {
     }
 }
 
+/// Runs `rrss exec FILE` with stdin held open: does any standard-output byte arrive BEFORE any input is provided?
+/// (a `say` writes its line before the next statement - here a `listen` - runs).  Then the input is sent and the run ends.
+fn prompt_arrives_first(bin: &str, file: &str, stdin: &[u8]) -> bool {
+    use std::io::Read;
+    let mut child = Command::new(bin)
+        .args(["exec", file])
+        .env("NO_COLOR", "1")
+        .stdin(Stdio::piped())
+        .stdout(Stdio::piped())
+        .stderr(Stdio::null())
+        .spawn()
+        .expect("cannot start the rrss binary");
+    let mut so = child.stdout.take().unwrap();
+    let (tx, rx) = std::sync::mpsc::channel();
+    let t = std::thread::spawn(move || {
+        let mut b = [0u8; 1];
+        let got = matches!(so.read(&mut b), Ok(1));
+        let _ = tx.send(got);
+        let mut rest = Vec::new();
+        let _ = so.read_to_end(&mut rest);
+    });
+    let first = rx.recv_timeout(std::time::Duration::from_millis(3000)).unwrap_or(false);
+    {
+        let mut si = child.stdin.take().unwrap();
+        let _ = si.write_all(stdin);
+    }
+    let _ = child.wait();
+    let _ = t.join();
+    first
+}
+
+/// Runs `rrss exec FILE` with a standard output nobody reads (closed pipe): the failing write must surface as a reported
+/// runtime error.
+fn run_with_closed_stdout(bin: &str, file: &str, stdin: &[u8]) -> Proc {
+    use std::os::unix::io::FromRawFd;
+    let mut fds = [0i32; 2];
+    unsafe {
+        libc::pipe(fds.as_mut_ptr());
+        libc::close(fds[0]);
+    }
+    let mut child = Command::new(bin)
+        .args(["exec", file])
+        .env("NO_COLOR", "1")
+        .stdin(Stdio::piped())
+        .stdout(unsafe { Stdio::from_raw_fd(fds[1]) })
+        .stderr(Stdio::piped())
+        .spawn()
+        .expect("cannot start the rrss binary");
+    {
+        let mut si = child.stdin.take().unwrap();
+        let _ = si.write_all(stdin);
+    }
+    let out = child.wait_with_output().expect("cannot wait for rrss");
+    Proc { stdout: String::new(), stderr: String::from_utf8_lossy(&out.stderr).into_owned(), code: out.status.code().unwrap_or(-1) }
+}
+
 fn lines_of(out: &str) -> Vec<String> {
     let mut v: Vec<String> = out.split('\n').map(|s| s.to_string()).collect();
     assert_eq!(v.pop().as_deref(), Some(""), "library output does not end with a line end");
@@ -89,9 +145,9 @@ pub fn record(args: &[String]) -> i32 {
     let mut f = std::fs::File::create(out.expect("--out required")).expect("cannot create trace file");
     let file = format!("{}/vh-cli-{}.rock", dir, std::process::id());
     let text_in = std::fs::read_to_string(input.expect("--in required")).expect("cannot read cases");
-    let mut emit = |p: J, proc: &Proc, merged: &Proc| {
+    fn emit_to(f: &mut std::fs::File, p: J, proc: &Proc, merged: &Proc) {
         writeln!(f, "{}", json!({"p": p, "proc": {"stdout": proc.stdout, "stderr": proc.stderr, "code": proc.code, "merged": merged.stdout}})).unwrap();
-    };
+    }
     for line in text_in.lines() {
         let rec: J = match extract(line).and_then(|j| serde_json::from_str(&j).ok()) {
             Some(r) => r,
@@ -102,15 +158,38 @@ pub fn record(args: &[String]) -> i32 {
             a.iter().flat_map(|c| c.as_str().unwrap().as_bytes().to_vec()).collect()
         });
         std::fs::write(&file, &text).unwrap();
-        for cmd in ["exec", "lint", "parse"] {
+        // process-level I/O behaviour of `exec`
+        if let Ok(prog) = rrss::frontend::parser::parse(&text) {
+            let obs = crate::exec::run(&prog, &crate::exec::RunCfg { input: vec![stdin.clone()], out_budget: None, in_fail_at: None });
+            let first_io_is_write = obs.log.iter().find_map(|e| match e {
+                crate::exec::Ev::Write(_) => Some(true),
+                crate::exec::Ev::Read(_) | crate::exec::Ev::ReadFail => Some(false),
+                _ => None,
+            });
+            let reads = obs.log.iter().any(|e| matches!(e, crate::exec::Ev::Read(_)));
+            if first_io_is_write == Some(true) && reads {
+                let got = prompt_arrives_first(&bin, &file, &stdin);
+                writeln!(f, "{}", json!({"p": {"usage":"ok","file":"ok","cmd":"exec","lib":{"k":"prompt"}}, "proc": {"stdout":"","stderr":"","code":0,"merged":"","prompt_first":got}})).unwrap();
+            }
+            if first_io_is_write == Some(true) {
+                let p = run_with_closed_stdout(&bin, &file, &stdin);
+                writeln!(f, "{}", json!({"p": {"usage":"ok","file":"ok","cmd":"exec","lib":{"k":"stdout_closed"}}, "proc": {"stdout":"","stderr":p.stderr,"code":p.code,"merged":""}})).unwrap();
+            }
+        }
+        let mentions_listen = text.to_lowercase().contains("listen");
+        let variants: Vec<Vec<u8>> = if mentions_listen { vec![stdin.clone(), b"caf\xe9\nmore\n".to_vec()] } else { vec![stdin.clone()] };
+        for (stdin, cmd) in variants.iter().flat_map(|v| ["exec", "lint", "parse"].into_iter().map(move |c| (v.clone(), c))) {
+            if stdin != variants[0] && cmd != "exec" {
+                continue;
+            }
             let lib = lib_outcome(cmd, &text, &stdin);
             // the model's own run of the program, when it determines the outcome, must be what the library did
-            if cmd == "exec" && lib["k"] == "run" {
+            if cmd == "exec" && lib["k"] == "run" && stdin == variants[0] {
                 if let (Some(st), Some(mout)) = (rec.get("st").and_then(|x| x.as_str()), rec.get("out").and_then(|x| x.as_str())) {
                     let lib_out: String = lib["out"].as_array().unwrap().iter().map(|l| format!("{}\n", l.as_str().unwrap())).collect();
                     if (st == "ok" || st == "err") && (lib_out != mout || (st == "ok") != lib["err"].as_array().unwrap().is_empty()) {
                         let none = Proc { stdout: String::new(), stderr: String::new(), code: 0 };
-                        emit(json!({"usage":"ok","file":"ok","cmd":cmd,"lib":{"k":"model-disagrees","lib":lib,"model_out":mout,"model_st":st}}), &none, &none);
+                        emit_to(&mut f, json!({"usage":"ok","file":"ok","cmd":cmd,"lib":{"k":"model-disagrees","lib":lib,"model_out":mout,"model_st":st}}), &none, &none);
                     }
                 }
             }
@@ -119,9 +198,9 @@ pub fn record(args: &[String]) -> i32 {
             let p3 = run_bin(&bin, &[cmd, &file], &stdin, false);
             if p3.stdout != p1.stdout || p3.stderr != p1.stderr || p3.code != p1.code {
                 // a second process must behave identically (C10 across processes)
-                emit(json!({"usage":"ok","file":"ok","cmd":cmd,"lib":{"k":"nondeterministic"}}), &p3, &p2);
+                emit_to(&mut f, json!({"usage":"ok","file":"ok","cmd":cmd,"lib":{"k":"nondeterministic"}}), &p3, &p2);
             }
-            emit(json!({"usage":"ok","file":"ok","cmd":cmd,"lib":lib}), &p1, &p2);
+            emit_to(&mut f, json!({"usage":"ok","file":"ok","cmd":cmd,"lib":lib}), &p1, &p2);
         }
     }
     let _ = std::fs::remove_file(&file);
@@ -131,12 +210,12 @@ pub fn record(args: &[String]) -> i32 {
         let a = [cmd, "/nonexistent/dir/none.rock"];
         let p1 = run_bin(&bin, &a, b"", false);
         let p2 = run_bin(&bin, &a, b"", true);
-        emit(json!({"usage":"ok","file":"missing","cmd":cmd,"lib":dummy}), &p1, &p2);
+        emit_to(&mut f, json!({"usage":"ok","file":"missing","cmd":cmd,"lib":dummy}), &p1, &p2);
     }
     for a in [vec!["exec"], vec!["frobnicate", "x.rock"], vec!["exec", "a.rock", "b.rock"], vec!["lint"], vec!["--no-such-flag"]] {
         let p1 = run_bin(&bin, &a, b"", false);
         let p2 = run_bin(&bin, &a, b"", true);
-        emit(json!({"usage":"bad","file":"ok","cmd":a[0],"lib":dummy}), &p1, &p2);
+        emit_to(&mut f, json!({"usage":"bad","file":"ok","cmd":a[0],"lib":dummy}), &p1, &p2);
     }
     0
 }
